@@ -73,6 +73,9 @@ OutValid(c, pd) ==
 Match(e, optLine) ==
   /\ Clause("exc",     InP("exc")     => e.exc = exc')
   /\ Clause("out",     InP("out")     => e.out = CmdsSeq(out'))
+  \* the link: what reaches the connection in a step is what was handed to transport.send if the link is up; with the link
+  \* down it is dropped - nothing is kept for later (Gateway.tla has no queue of unsent commands to retry from)
+  /\ Clause("wire",    InP("out") /\ e.haswire => e.wire = (IF e.linkup THEN e.out ELSE <<>>))
   /\ Clause("outvalid", InP("out")   => \A i \in 1..Len(e.out) : OutValid(e.out[i], e.outp[i]))
   /\ Clause("cb",      InP("cb")      => CbMatch(e, optLine))
   /\ Clause("cbseen",  InP("cb")      => CbSeen(e))
